@@ -246,6 +246,12 @@ def check(ctx):
             viol("R-C06.1", px, "CParser._lex_error_func", None, "lex-error-returns", "the lexer's error callback can return without raising ParseError")
     ctx.require_instances("R-C06.1", 3)
 
+    # the parser never catches its own error: ParseError ends the parse
+    from .. import e1 as _e1s
+    _exs, _gs = _e1s.get()
+    ctx.oblige("R-C06.1", "no handler inside the parser catches ParseError", not _exs.swallows, sample={"rule": "R-C06.1", "handlers catching ParseError / Exception inside productions": [f"{m_}:{ln_}" for m_, ln_, _ in _exs.swallows]})
+    for m_, ln_, names_ in _exs.swallows:
+        ctx.violation("R-C06.1", f"swallowed-error:{m_}", f"{m_} (line {ln_}) catches {names_}: the single error channel is no longer terminal", file="pycparser/c_parser.py", function=f"CParser.{m_}", line=ln_)
     # ---- R-C06.2 ------------------------------------------------------------------
     auto = {}
     for key, prod in ex.prods.items():
